@@ -219,6 +219,18 @@ impl<A: Codec, const K: usize, S: KmerStorage> Kmer<A, K, S> {
         self.bs.rev_blocks_2();
         self.bs.shiftr((S::BITS - (A::BITS as usize * K)) as u32);
     }
+
+    /// Reverse symbols of any width: reverse all bits, then restore the bit order inside
+    /// each symbol
+    fn rev_blocks(&mut self) {
+        let mut ba = self.bs.to_bitarray();
+        let bs: &mut Bs = &mut ba.as_mut()[..Self::BITS];
+        bs.reverse();
+        for chunk in bs.rchunks_exact_mut(A::BITS as usize) {
+            chunk.reverse();
+        }
+        self.bs = S::from_bitslice(bs);
+    }
 }
 
 impl<A: Codec, const K: usize> From<usize> for Kmer<A, K, usize> {
@@ -449,7 +461,12 @@ impl<const K: usize> Complement for Kmer<codec::dna::Dna, K, usize> {}
 
 impl<A: Codec, const K: usize> ReverseMut for Kmer<A, K, usize> {
     fn rev(&mut self) {
-        self.rev_blocks_2();
+        // the byte-swap/lookup-table trick only reverses 2-bit symbols
+        if A::BITS == 2 {
+            self.rev_blocks_2();
+        } else {
+            self.rev_blocks();
+        }
     }
 }
 
